@@ -189,6 +189,13 @@ func fullRangeLoop(p *Prog, call ssa.Instruction, typ *types.Named, field string
 			}
 		}
 	}
+	// and no iteration skips the call: from the body's first instruction the loop test is not reachable again
+	// without passing it (a `continue` in front of it)
+	body := hdr.Succs[0].Instrs[0]
+	isCall := func(x ssa.Instruction) bool { return x == call }
+	if !isCall(body) && ReachableAvoiding(call.Parent(), body, hdr.Instrs[len(hdr.Instrs)-1], isCall, nil) {
+		return false, "an iteration can go on to the next bucket without consulting this one"
+	}
 	return true, ""
 }
 
@@ -301,6 +308,32 @@ func runC03(p *Prog, r *Report) {
 		r.Paths++
 		r.Check(ok, "C03.R3", "ratelimit.(*tokenBucket).consume: debit only when enough tokens are available", p.InstrPos(st),
 			"the debit is reachable only on an edge implying availableTokens - tokens >= 0", "the debit of availableTokens is not guarded by availableTokens >= tokens: the bucket can go negative and more than the rate is admitted")
+	}
+	// ---- R4 the bucket is brought up to date before it is looked at ----
+	// every read of the available tokens in consume (the sufficiency test, the advertised wait, the debit) comes
+	// after the refill on every path: a bucket consulted with a stale level spends what is left first and is
+	// then credited the whole idle gap on top (up to twice the burst at one instant)
+	if b.refill != b.consume { // (a refill written out inside consume reads the level as part of the refill itself: not decided here)
+		isRefill := func(in ssa.Instruction) bool { return IsCallTo(in, b.refill) }
+		var stale ssa.Instruction
+		nRd := 0
+		for _, blk := range b.consume.Blocks {
+			for _, in := range blk.Instrs {
+				u, ok := in.(*ssa.UnOp)
+				if !ok || u.Op != token.MUL {
+					continue
+				}
+				if nt, f, base, ok := fieldOf(u.X); ok && nt == b.typ && f == b.avail && base == ssa.Value(b.consume.Params[0]) {
+					nRd++
+					if ReachableAvoiding(b.consume, nil, in, isRefill, nil) {
+						stale = in
+					}
+				}
+			}
+		}
+		r.Paths += nRd
+		r.Check(stale == nil && nRd > 0, "C03.R4", "ratelimit.(*tokenBucket).consume: refilled before the level is read", p.FuncPos(b.consume), fmt.Sprintf("all %d reads of the available tokens follow the refill call on every path", nRd),
+			"the available tokens are read before the bucket was refilled"+atInstr(p, stale)+": the elapsed time is credited after leftover tokens were spent, so one instant can admit up to twice the burst")
 	}
 	// ---- R4 refill ----
 	fn := b.refill
@@ -519,6 +552,29 @@ func c03Limiter(p *Prog, r *Report) {
 		}
 	}
 	r.Floor("C03.R2", nNew, 1, "bucket set constructions in the consume routine")
+	// a tracked source is always brought in line with the rates that apply to THIS request: on the lookup-hit edge
+	// every path to Consume passes TokenBucketSet.Update (a shortcut keyed on something shared by all sources —
+	// "same rates as the previous request" — leaves a source on the rates it had when it was last updated)
+	{
+		isUpd := func(in ssa.Instruction) bool {
+			cc := CallCommonOf(in)
+			if cc == nil {
+				return false
+			}
+			f := cc.StaticCallee()
+			return f != nil && f.Name() == "Update" && recvNamed(f) != nil && recvNamed(f).Obj().Name() == "TokenBucketSet"
+		}
+		nU := 0
+		for _, t := range bts {
+			nU++
+			hit := func(e Edge) bool { return !(e.B == t.False.B && e.K == t.False.K) }
+			skip := ReachableAvoiding(fn, t.If, cons, isUpd, hit)
+			r.Paths++
+			r.Check(!skip, "C03.R2", what+": a tracked source's buckets follow the request's rates", p.InstrPos(t.If), "on the lookup-hit edge every path to Consume passes TokenBucketSet.Update",
+				"on the lookup-hit edge Consume is reachable without TokenBucketSet.Update: a source whose rates changed keeps being limited by its old rates (or its new ones are applied only when another source happened to use them last)")
+		}
+		r.Floor("C03.R2", nU, 1, "tests of the lookup result")
+	}
 	c03Admission(p, r, tl, fn)
 	c03Capacity(p, r, "C03.R8", tl)
 	c03TTLPositive(p, r, "C03.R10", tl)
@@ -665,7 +721,8 @@ func runC13(p *Prog, r *Report) {
 		r.Floor("C13.R8", c09Races(p, r, "C13.R8", []*types.Named{tlT}), 1, "written shared locations of the limiter")
 	}
 	// R7: the refill credits exactly the elapsed time, so an idle source regains its burst and the advertised wait suffices (shared with C03.R4)
-	r.Borrow(p, runC03, map[string]string{"C03.R4": "C13.R7"}, nil)
+	// R9: an over-burst request is refused by the bucket it exceeds: every bucket of the set is consulted (shared with C03.R5)
+	r.Borrow(p, runC03, map[string]string{"C03.R4": "C13.R7", "C03.R5": "C13.R9"}, nil)
 	b := resolveBucket(p, r, "C13.R1")
 	if b == nil {
 		return
@@ -787,10 +844,14 @@ func runC13(p *Prog, r *Report) {
 				trig = append(trig, Edge{ifi.Block(), 1 - k})
 				trigIfs = append(trigIfs, ifi)
 			default:
-				if cmp, ok := CanonCmp(BuildExpr(p, ifi.Cond, nil)); ok && cmp.Op == ">" && isTimeType(bo.X.Type(), "Duration") {
-					if c, okc := cmp.D.Q.isConst(); okc && c.Sign() > 0 && len(cmp.D.P) == 1 {
-						trig = append(trig, Edge{ifi.Block(), 0})
-						trigIfs = append(trigIfs, ifi)
+				if cmp, ok := CanonCmp(BuildExpr(p, ifi.Cond, nil)); ok && isTimeType(bo.X.Type(), "Duration") {
+					// `maxDelay > 0` (also written `>= 1`) on the true edge, or its negation on the false edge
+					for ke, cv := range []LinCmp{cmp.Strict(), cmp.Negate().Strict()} {
+						if c, okc := cv.D.Q.isConst(); cv.Op == ">" && okc && c.Sign() > 0 && len(cv.D.P) == 1 {
+							trig = append(trig, Edge{ifi.Block(), ke})
+							trigIfs = append(trigIfs, ifi)
+							break
+						}
 					}
 				}
 			}
@@ -1059,9 +1120,14 @@ func c13Limiter(p *Prog, r *Report) {
 		}
 		pos := false
 		for _, ifi := range ifs(fn) {
-			if cmp, ok := CanonCmp(BuildExpr(p, ifi.Cond, nil)); ok && cmp.Op == ">" && resultValue(cons, 0)(stripConv(condOperand(ifi))) {
-				if OnlyViaEdge(fn, mk, Edge{ifi.Block(), 0}) {
-					pos = true
+			if cmp, ok := CanonCmp(BuildExpr(p, ifi.Cond, nil)); ok && resultValue(cons, 0)(stripConv(condOperand(ifi))) {
+				// `delay > 0` / `delay >= 1` on the true edge, `delay <= 0` / `delay < 1` with the positive delay on the false edge
+				for k, cv := range []LinCmp{cmp.Strict(), cmp.Negate().Strict()} {
+					if cv.Op == ">" && len(cv.D.P) == 1 && OnlyViaEdge(fn, mk, Edge{ifi.Block(), k}) {
+						if c0, okc := cv.D.P.isConst(); !okc || c0.Sign() == 0 {
+							pos = true
+						}
+					}
 				}
 			}
 		}
@@ -1138,6 +1204,8 @@ func condOperand(ifi *ssa.If) ssa.Value {
 func mutantsC03() []Mutant {
 	tl, bk, bs := "ratelimit/tokenlimiter.go", "ratelimit/bucket.go", "ratelimit/bucketset.go"
 	return []Mutant{
+		{Name: "consume-lazy-refill", File: "ratelimit/bucket.go", Old: "\ttb.updateAvailableTokens()\n\ttb.lastConsumed = 0\n", New: "\ttb.lastConsumed = 0\n\tif tokens == 0 || tb.availableTokens < tokens {\n\t\ttb.updateAvailableTokens()\n\t}\n", Expect: "C03.R4"},
+		{Name: "update-only-when-rates-differ-from-default", File: "ratelimit/tokenlimiter.go", Old: "\t\tbucketSet.Update(effectiveRates)\n", New: "\t\tif effectiveRates != tl.defaultRates {\n\t\t\tbucketSet.Update(effectiveRates)\n\t\t}\n", Expect: "C03.R2"},
 		{Name: "set-only-on-create", File: tl, Old: "\t\tbucketSet = NewTokenBucketSet(effectiveRates)\n\t}\n", New: "\t\tbucketSet = NewTokenBucketSet(effectiveRates)\n\t\t_ = tl.bucketSets.Set(source, bucketSet, int(bucketSet.maxPeriod/clock.Second)*10+1)\n\t}\n\tif false {\n\t\treturn nil\n\t}\n", More: []Edit{{tl, "\tif err := tl.bucketSets.Set(source, bucketSet, int(bucketSet.maxPeriod/clock.Second)*10+1); err != nil {\n\t\treturn err\n\t}\n", ""}}, Expect: "C03.R1"},
 		{Name: "debit-unguarded", File: bk, Old: "\tif tb.availableTokens < tokens {\n\t\treturn tb.timeTillAvailable(tokens), nil\n\t}\n", New: "", Expect: "C03.R3"},
 		{Name: "no-checkpoint", File: bk, Old: "\t\ttb.lastRefresh = now\n", New: "", Expect: "C03.R4"},
@@ -1160,6 +1228,7 @@ func mutantsC03() []Mutant {
 func mutantsC13() []Mutant {
 	tl, bk, bs := "ratelimit/tokenlimiter.go", "ratelimit/bucket.go", "ratelimit/bucketset.go"
 	return []Mutant{
+		{Name: "set-skips-instant-buckets", File: "ratelimit/bucketset.go", Old: "\tfor _, tokenBucket := range tbs.buckets {\n\t\t// We keep calling", New: "\tfor _, tokenBucket := range tbs.buckets {\n\t\tif tokenBucket.timePerToken == 0 {\n\t\t\tcontinue\n\t\t}\n\t\t// We keep calling", Expect: "C13.R9"},
 		{Name: "consume-outside-mutex", File: tl, Old: "\tdelay, err := bucketSet.Consume(amount)\n", New: "\ttl.mutex.Unlock()\n\tdelay, err := bucketSet.Consume(amount)\n\ttl.mutex.Lock()\n", Expect: "C13.R6"},
 		{Name: "rollback-only-on-error", File: bs, Old: "\tif firstErr != nil || maxDelay > 0 {", New: "\tif firstErr != nil {", Expect: "C13.R2"},
 		{Name: "lastconsumed-not-set", File: bk, Old: "\ttb.availableTokens -= tokens\n\ttb.lastConsumed = tokens\n", New: "\ttb.availableTokens -= tokens\n", Expect: "C13.R1"},
